@@ -171,7 +171,7 @@ PROPERTIES = {
                        "of at most 9 bytes (radix 2, 8, 16) resp. 6 bytes quick / 7 bytes thorough (radix 10), all nine 8-bit layouts symbolic, "
                        "against the exactly rounded value of the literal (ties to even), the overflow flag, the wrapped value and the error "
                        "classes of a grammar written independently of the tokeniser; complete within the bound, loops closed by unwinding assertions",
-        "bounded_parts": ["string length <= 9 (6 / 8 for decimal); 8-bit types only; wider types share parse_bounds and the generic digit loops "
+        "bounded_parts": ["string length <= 9 (6 / 7 for decimal); 8-bit types only; wider types share parse_bounds and the generic digit loops "
                           "but their dec_to_bin / get_int / get_frac instantiations are not covered"],
     },
     "C09": {
